@@ -6,6 +6,9 @@
 From Coq Require Import QArith.
 From TU Require Import Base C13_Model C13_Walk C13_F1 C13_Ws C13_Sp C13_Proofs.
 From TU Require C10_Model C11_Model C12_Model C18_Model.
+From Coq Require Reals.
+From Flocq Require Core IEEE754.BinarySingleNaN.
+From TU Require C13_Float C13_FloatProofs.
 Open Scope nat_scope.
 
 (** ** F-beta *)
@@ -159,6 +162,29 @@ Print Assumptions sp_unchanged.
 Theorem check_run : forall v, premise_C13 v = true -> check_C13 v (run_C13 v) = true.
 Proof. exact check_run_l. Qed.
 Print Assumptions check_run.
+
+(** ** binary64: the arithmetic of the metrics inside the model (C13_Float.v) *)
+Module Fl.
+Import Reals Core BinarySingleNaN C13_Float C13_FloatProofs.
+
+(** "F-beta <= 1" is FALSE of the expression [_f1] had before the repair (/repo d11): for
+    tp = 1000, fp = 0, fn = 2, beta = 1.9243201927590334e-08 the binary64 result is 1 + 2^-52 *)
+Theorem f1_fl_le_1_refuted :
+  exists tp fp fn beta,
+    (is_finite (fmul beta beta) = true) /\
+    (Bltb f_one (c1f (f1_fl_pinned beta tp fp fn)) = true) /\
+    (1 < B2R (c1f (f1_fl_pinned beta tp fp fn)))%R.
+Proof. exact f1_fl_le_1_refuted_l. Qed.
+Print Assumptions f1_fl_le_1_refuted.
+
+(** ... and on the other side: tp = 1390, fp = 2, fn = 0, beta = 108442877.09708491 *)
+Theorem f1_fl_le_1_refuted_huge :
+  (is_finite (fmul beta_huge beta_huge) = true) /\
+  (Bltb f_one (c1f (f1_fl_pinned beta_huge 1390 2 0)) = true) /\
+  (1 < B2R (c1f (f1_fl_pinned beta_huge 1390 2 0)))%R.
+Proof. exact f1_fl_le_1_refuted_huge_l. Qed.
+Print Assumptions f1_fl_le_1_refuted_huge.
+End Fl.
 
 (** ** non-vacuity *)
 Definition ex_s (l : list N) : list cluster := singletons l.
